@@ -431,6 +431,12 @@ T('C16', 'twin-delegate-items', PGP, _C16_DEL, "            for skid, subkey in 
 M('C16', 'delegate-first-subkey', PGP, _C16_DEL, "            sks = list(self.subkeys)\n            if sks:\n                return self.subkeys[sks[0]].decrypt(message)\n", 'C16.6')
 M('C16', 'delegate-unaddressed', PGP, _C16_DEL, "            for skid in self.subkeys:\n                if skid not in message.encrypters:\n                    return self.subkeys[skid].decrypt(message)\n", 'C16.6')
 T('C16', 'twin-encrypters-setcomp', PGP, "        return set(m.encrypter for m in self._sessionkeys if isinstance(m, PKESessionKey))", "        return {pk.encrypter for pk in self._sessionkeys if isinstance(pk, PKESessionKey)}")
+T('C16', 'twin-self-signatures-plain-loop', PGP, _C16_FIL, "        for sig in self._signatures:\n            if sig.type == keytype and sig.signer == keyid and not sig.is_expired:\n                yield sig" + _C16_TAIL)
+T('C16', 'twin-self-signatures-loop-continue', PGP, _C16_FIL, "        for sig in self._signatures:\n            if sig.type != keytype or sig.is_expired:\n                continue\n            if sig.signer == keyid:\n                yield sig" + _C16_TAIL)
+M('C16', 'self-signatures-loop-expired-kept', PGP, _C16_FIL, "        for sig in self._signatures:\n            if sig.type == keytype and sig.signer == keyid:\n                yield sig" + _C16_TAIL, 'C16.5')
+M('C16', 'self-signatures-loop-or', PGP, _C16_FIL, "        for sig in self._signatures:\n            if sig.type == keytype and (sig.signer == keyid or not sig.is_expired):\n                yield sig" + _C16_TAIL, 'C16.5')
+T('C16', 'twin-usage-frozen-required', DE, "                if self.flags & set(_key._get_key_flags(user)):", "                if frozenset(self.flags) & frozenset(_key._get_key_flags(user)):")
+T('C16', 'twin-key-flags-first-uid-index', PGP, "                user = next(iter(self.userids))", "                user = self.userids[0]")
 T('C16', 'twin-delegate-loop-skip', PGP, _C16_DEL, "            for skid in self.subkeys:\n                if skid not in message.encrypters:\n                    continue\n                return self.subkeys[skid].decrypt(message)\n")
 
 # =============================================================================================== C18 (additions)
